@@ -22,7 +22,7 @@ class C06(Check):
     ASSUMPTIONS = ['reference layout transcribed from the docstrings of sdss_objid / sdss_specobjid',
                    'out-of-range components inside a vN_M_P string are not asserted to raise (DESIGN C06 D)']
     QUICK_SHARDS = 4
-    REQUIRED_COUNTERS = ('ids_in_batches_over_65535', 'unwrap_id_array_flavours', 'run2d_mixed_form_string_arrays', 'repeat_calls_same_objects', 'rejections_observed', 'length_mismatch_one', 'length_mismatch_plus1', 'length_mismatch_minus1')
+    REQUIRED_COUNTERS = ('objid_calls_with_positional_optional_arguments', 'ids_in_batches_over_65535', 'unwrap_id_array_flavours', 'run2d_mixed_form_string_arrays', 'repeat_calls_same_objects', 'rejections_observed', 'length_mismatch_one', 'length_mismatch_plus1', 'length_mismatch_minus1')
 
     def setup(self):
         import pydl.pydlutils.sdss as S
@@ -159,9 +159,19 @@ class C06(Check):
         if extras == 'all':
             kw = dict(rerun=arr('rerun'), skyversion=arr('skyversion'), firstfield=arr('firstfield'))
         args = (arr('run'), arr('camcol'), arr('field'), arr('objnum'))
+        if kw:
+            # the optional arguments in the documented positional order (run, camcol, field, objnum, rerun, skyversion,
+            # firstfield): all three positional, only rerun positional, or all by keyword
+            how = (int(np.sum(np.asarray(vals['run'], dtype='int64'))) + int(np.asarray(vals['rerun']).ravel()[0])) % 3
+            if how == 0:
+                args = args + (kw.pop('rerun'), kw.pop('skyversion'), kw.pop('firstfield'))
+                self._objid_positional = getattr(self, '_objid_positional', 0) + 1
+            elif how == 1:
+                args = args + (kw.pop('rerun'),)
         res = S.sdss_objid(*args, **kw)
         if reuse_out is not None:
             keep = [a.copy() if isinstance(a, np.ndarray) else a for a in args] + [kw[k].copy() if isinstance(kw[k], np.ndarray) else kw[k] for k in sorted(kw)]
+            reuse_out.count('objid_calls_with_positional_optional_arguments', len(args) > 4)
             try:
                 res2 = S.sdss_objid(*args, **kw)
             except Exception as e:
@@ -295,6 +305,8 @@ class C06(Check):
         elif lineform == 'index':
             kw['index'] = arr('line')
         args = (arr('plate'), arr('fiber'), arr('mjd'), arr('run2d'))
+        if 'line' in kw and int(np.asarray(vals['fiber']).ravel()[0]) % 2:
+            args = args + (kw.pop('line'),)          # plate, fiber, mjd, run2d, line in the documented positional order
         res = S.sdss_specobjid(*args, **kw)
         if reuse_out is not None:
             # the same argument objects are used for a second call (a caller packing IDs twice from one table):
